@@ -2,10 +2,774 @@
 
 package autonatv2
 
-import (
-	"testing"
+// C16 kind-2 cases: the real serveDialRequest on scripted streams, with a real
+// swarm as dialer host whose only transport records every Dial and fails it.
+// Everything runs inside a testing/synctest bubble: one stimulus at a time,
+// synctest.Wait() before the next, so the order of events is the harness's.
 
+import (
+	"context"
+	crand "crypto/rand"
+	"encoding/binary"
+	"errors"
+	"fmt"
+	"os"
+	"sync"
+	"testing"
+	"testing/synctest"
+	"time"
+
+	"github.com/libp2p/go-libp2p/core/control"
+	"github.com/libp2p/go-libp2p/core/crypto"
+	"github.com/libp2p/go-libp2p/core/network"
+	"github.com/libp2p/go-libp2p/core/peer"
+	"github.com/libp2p/go-libp2p/core/test"
+	"github.com/libp2p/go-libp2p/core/transport"
 	"github.com/libp2p/go-libp2p/internal/verifh"
+	bhost "github.com/libp2p/go-libp2p/p2p/host/blank"
+	"github.com/libp2p/go-libp2p/p2p/host/eventbus"
+	"github.com/libp2p/go-libp2p/p2p/host/peerstore/pstoremem"
+	"github.com/libp2p/go-libp2p/p2p/net/swarm"
+	"github.com/libp2p/go-libp2p/p2p/protocol/autonatv2/pb"
+	ma "github.com/multiformats/go-multiaddr"
+	manet "github.com/multiformats/go-multiaddr/net"
+	"google.golang.org/protobuf/proto"
 )
 
-func c16Sessions(t *testing.T, out *verifh.Out, r *verifh.Rand) {}
+// ---- event log shared by streams and the recording transport --------------
+
+type c16LogEntry struct {
+	kind int // 0 bytes written by the server on stream sid, 1 reset of sid, 2 dial
+	sid  int64
+	data []byte
+	p    peer.ID
+	addr string
+}
+
+type c16Log struct {
+	mu sync.Mutex
+	l  []c16LogEntry
+}
+
+func (g *c16Log) add(e c16LogEntry) {
+	g.mu.Lock()
+	g.l = append(g.l, e)
+	g.mu.Unlock()
+}
+
+func (g *c16Log) drain() []c16LogEntry {
+	g.mu.Lock()
+	defer g.mu.Unlock()
+	l := g.l
+	g.l = nil
+	return l
+}
+
+// ---- recording transport ---------------------------------------------------
+
+type c16Transport struct{ log *c16Log }
+
+var errC16Dial = errors.New("verif: recorded, not connected")
+
+func (t *c16Transport) Dial(_ context.Context, raddr ma.Multiaddr, p peer.ID) (transport.CapableConn, error) {
+	t.log.add(c16LogEntry{kind: 2, p: p, addr: raddr.String()})
+	return nil, errC16Dial
+}
+
+// TCP over an IP literal only
+func (t *c16Transport) CanDial(a ma.Multiaddr) bool {
+	ps := a.Protocols()
+	return len(ps) == 2 && (ps[0].Code == ma.P_IP4 || ps[0].Code == ma.P_IP6) && ps[1].Code == ma.P_TCP
+}
+func (t *c16Transport) Listen(ma.Multiaddr) (transport.Listener, error) {
+	return nil, errors.New("verif: no listening")
+}
+func (t *c16Transport) Protocols() []int { return []int{ma.P_TCP} }
+func (t *c16Transport) Proxy() bool      { return false }
+
+// ---- gater: refuses to dial port 6666 --------------------------------------
+
+type c16Gater struct{}
+
+func (c16Gater) InterceptPeerDial(peer.ID) bool { return true }
+func (c16Gater) InterceptAddrDial(_ peer.ID, a ma.Multiaddr) bool {
+	v, err := a.ValueForProtocol(ma.P_TCP)
+	return err != nil || v != "6666"
+}
+func (c16Gater) InterceptAccept(network.ConnMultiaddrs) bool { return true }
+func (c16Gater) InterceptSecured(network.Direction, peer.ID, network.ConnMultiaddrs) bool {
+	return true
+}
+func (c16Gater) InterceptUpgraded(network.Conn) (bool, control.DisconnectReason) { return true, 0 }
+
+// ---- scripted stream -------------------------------------------------------
+
+type c16Conn struct {
+	network.Conn
+	p    peer.ID
+	addr ma.Multiaddr
+}
+
+func (c *c16Conn) RemotePeer() peer.ID           { return c.p }
+func (c *c16Conn) RemoteMultiaddr() ma.Multiaddr { return c.addr }
+
+type c16Stream struct {
+	network.Stream
+	sid  int64
+	conn *c16Conn
+	log  *c16Log
+
+	mu       sync.Mutex
+	cond     *sync.Cond
+	in       []byte // client -> server, not yet read
+	inEOF    bool
+	reset    bool
+	closed   bool
+	deadline time.Time
+	timer    *time.Timer
+	readB    int64
+}
+
+func newC16Stream(sid int64, p peer.ID, obs ma.Multiaddr, log *c16Log) *c16Stream {
+	s := &c16Stream{sid: sid, conn: &c16Conn{p: p, addr: obs}, log: log}
+	s.cond = sync.NewCond(&s.mu)
+	return s
+}
+
+func (s *c16Stream) Conn() network.Conn         { return s.conn }
+func (s *c16Stream) Scope() network.StreamScope { return &network.NullScope{} }
+
+func (s *c16Stream) Read(p []byte) (int, error) {
+	s.mu.Lock()
+	defer s.mu.Unlock()
+	for {
+		if s.reset {
+			return 0, network.ErrReset
+		}
+		if !s.deadline.IsZero() && !time.Now().Before(s.deadline) {
+			return 0, os.ErrDeadlineExceeded
+		}
+		if len(s.in) > 0 {
+			n := copy(p, s.in)
+			s.in = s.in[n:]
+			s.readB += int64(n)
+			return n, nil
+		}
+		if s.inEOF {
+			return 0, errors.New("EOF") // io.EOF would do; any error is a read failure
+		}
+		s.cond.Wait()
+	}
+}
+
+func (s *c16Stream) Write(p []byte) (int, error) {
+	s.mu.Lock()
+	defer s.mu.Unlock()
+	if s.reset || s.closed {
+		return 0, network.ErrReset
+	}
+	s.log.add(c16LogEntry{kind: 0, sid: s.sid, data: append([]byte(nil), p...)})
+	return len(p), nil
+}
+
+func (s *c16Stream) Reset() error {
+	s.mu.Lock()
+	defer s.mu.Unlock()
+	if !s.reset && !s.closed {
+		s.reset = true
+		s.log.add(c16LogEntry{kind: 1, sid: s.sid})
+		s.cond.Broadcast()
+	}
+	return nil
+}
+func (s *c16Stream) ResetWithError(network.StreamErrorCode) error { return s.Reset() }
+
+func (s *c16Stream) Close() error {
+	s.mu.Lock()
+	defer s.mu.Unlock()
+	s.closed = true
+	if s.timer != nil {
+		s.timer.Stop()
+	}
+	return nil
+}
+
+func (s *c16Stream) SetDeadline(t time.Time) error {
+	s.mu.Lock()
+	defer s.mu.Unlock()
+	s.deadline = t
+	if s.timer != nil {
+		s.timer.Stop()
+	}
+	s.timer = time.AfterFunc(time.Until(t), func() {
+		s.mu.Lock()
+		s.cond.Broadcast()
+		s.mu.Unlock()
+	})
+	return nil
+}
+func (s *c16Stream) SetReadDeadline(t time.Time) error  { return s.SetDeadline(t) }
+func (s *c16Stream) SetWriteDeadline(t time.Time) error { return nil }
+
+// client side
+func (s *c16Stream) clientWrite(b []byte) {
+	s.mu.Lock()
+	s.in = append(s.in, b...)
+	s.cond.Broadcast()
+	s.mu.Unlock()
+}
+func (s *c16Stream) clientClose() {
+	s.mu.Lock()
+	s.inEOF = true
+	s.cond.Broadcast()
+	s.mu.Unlock()
+}
+
+// ---- addresses --------------------------------------------------------------
+
+// IP identities.  Entries with the same id are the same IP for the purpose of
+// "the address's IP differs from the IP the request came from".
+type c16IP struct {
+	s   string
+	v6  bool
+	id  int64
+	pub bool
+}
+
+var c16IPs = []c16IP{
+	{"1.2.3.4", false, 1, true},
+	{"5.6.7.8", false, 2, true},
+	{"99.88.77.66", false, 3, true},
+	{"2600:1f18::5", true, 4, true},
+	{"2a00:1450::9", true, 5, true},
+	{"::ffff:1.2.3.4", true, 1, true}, // the same IP as 1.2.3.4 in its IPv4-in-IPv6 form
+	{"192.168.1.7", false, 11, false},
+	{"10.0.0.3", false, 12, false},
+	{"127.0.0.1", false, 13, false},
+	{"fd00::7", true, 14, false},
+	{"169.254.1.1", false, 15, false},
+}
+
+type c16Addr struct {
+	aid   int64
+	bytes []byte // what goes into DialRequest.addrs
+	str   string // "" if it does not parse
+	cls   int64  // parse + 2*public + 4*canDial
+	ip    int64
+}
+
+type c16World struct {
+	out    *verifh.Out
+	log    *c16Log
+	srv    *server
+	sw     *swarm.Swarm
+	peers  []peer.ID
+	obs    []ma.Multiaddr
+	obsIP  []int64
+	addrs  []*c16Addr
+	byStr  map[string]*c16Addr
+	byPeer map[peer.ID]int64
+	port   int
+}
+
+func (w *c16World) mkAddr(r *verifh.Rand, p peer.ID) *c16Addr {
+	w.port++
+	a := &c16Addr{aid: int64(len(w.addrs) + 1)}
+	var s string
+	expectCls := int64(-1)
+	ipOf := func(k int) (string, string) {
+		ip := c16IPs[k]
+		if ip.v6 {
+			return "/ip6/" + ip.s, ""
+		}
+		return "/ip4/" + ip.s, ""
+	}
+	kind := r.Intn(16)
+	switch {
+	case kind < 6: // public IP, TCP: usable
+		k := r.Intn(6)
+		pre, _ := ipOf(k)
+		s = fmt.Sprintf("%s/tcp/%d", pre, 10000+w.port)
+		a.ip = c16IPs[k].id
+		if k != 5 {
+			expectCls = 7
+		}
+	case kind < 9: // private / loopback / link-local IP, TCP
+		k := 6 + r.Intn(5)
+		pre, _ := ipOf(k)
+		s = fmt.Sprintf("%s/tcp/%d", pre, 10000+w.port)
+		a.ip = c16IPs[k].id
+		expectCls = 5
+	case kind < 11: // public IP, but no transport for it
+		k := r.Intn(5)
+		pre, _ := ipOf(k)
+		s = fmt.Sprintf("%s/udp/%d/quic-v1", pre, 10000+w.port)
+		a.ip = c16IPs[k].id
+		expectCls = 3
+	case kind < 12: // public, TCP, refused by the dialer's connection gater
+		k := r.Intn(5)
+		pre, _ := ipOf(k)
+		s = pre + "/tcp/6666"
+		if _, dup := w.byStr[s]; dup {
+			s = fmt.Sprintf("%s/tcp/%d", pre, 10000+w.port)
+			expectCls = 7
+		} else {
+			expectCls = 3
+		}
+		a.ip = c16IPs[k].id
+	case kind < 13: // DNS name: public, no IP literal, not dialable by this dialer
+		s = fmt.Sprintf("/dns4/host%d.example.com/tcp/%d", w.port, 10000+w.port)
+		a.ip = 0
+		expectCls = 3
+	case kind < 14: // unspecified address
+		s = fmt.Sprintf("/ip4/0.0.0.0/tcp/%d", 10000+w.port)
+		a.ip = 16
+	default: // bytes that are not a multiaddr
+		a.bytes = []byte{0xff, 0xfe, byte(w.port), byte(w.port >> 8), 0x01}
+		a.cls, a.ip = 0, 0
+		if _, err := ma.NewMultiaddrBytes(a.bytes); err == nil {
+			panic("verif: malformed template parses")
+		}
+		w.addrs = append(w.addrs, a)
+		return a
+	}
+	m, err := ma.NewMultiaddr(s)
+	if err != nil {
+		panic(err)
+	}
+	a.bytes, a.str = m.Bytes(), m.String()
+	a.cls = 1
+	if manet.IsPublicAddr(m) {
+		a.cls += 2
+	}
+	if w.sw.CanDial(p, m) {
+		a.cls += 4
+	}
+	if expectCls >= 0 && a.cls != expectCls {
+		panic(fmt.Sprintf("verif: address %s has class %d, expected %d by construction", s, a.cls, expectCls))
+	}
+	w.addrs = append(w.addrs, a)
+	w.byStr[a.str] = a
+	return a
+}
+
+// ---- one session ------------------------------------------------------------
+
+type c16Open struct {
+	st    *c16Stream
+	peer  int64
+	plan  []c16Msg // dial-data messages still to send
+	after int      // what the client does when the plan is exhausted: 0 wait, 1 close
+	asked bool
+}
+
+func c16Session(t *testing.T, out *verifh.Out, r *verifh.Rand, steps int) {
+	var rpm, pp, dd, mc int
+	if r.Chance(1, 4) {
+		s := defaultSettings()
+		rpm, pp, dd, mc = s.serverRPM, s.serverPerPeerRPM, s.serverDialDataRPM, s.maxConcurrentRequestsPerPeer
+	} else {
+		rpm, pp, dd, mc = 1+r.Intn(10), 1+r.Intn(5), r.Intn(4), 1+r.Intn(3)
+	}
+	line := []int64{2, int64(rpm), int64(pp), int64(dd), int64(mc)}
+
+	lg := &c16Log{}
+	ps, err := pstoremem.NewPeerstore()
+	if err != nil {
+		t.Fatal(err)
+	}
+	sk, pk, err := crypto.GenerateEd25519Key(crand.Reader)
+	if err != nil {
+		t.Fatal(err)
+	}
+	self, _ := peer.IDFromPublicKey(pk)
+	ps.AddPrivKey(self, sk)
+	ps.AddPubKey(self, pk)
+	sw, err := swarm.NewSwarm(self, ps, eventbus.NewBus(),
+		swarm.WithUDPBlackHoleSuccessCounter(nil), swarm.WithIPv6BlackHoleSuccessCounter(nil),
+		swarm.WithConnectionGater(c16Gater{}), swarm.WithDialRanker(swarm.NoDelayDialRanker))
+	if err != nil {
+		t.Fatal(err)
+	}
+	if err := sw.AddTransport(&c16Transport{log: lg}); err != nil {
+		t.Fatal(err)
+	}
+	dialer := bhost.NewBlankHost(sw)
+	settings := defaultSettings()
+	settings.serverRPM, settings.serverPerPeerRPM, settings.serverDialDataRPM, settings.maxConcurrentRequestsPerPeer = rpm, pp, dd, mc
+	settings.amplificatonAttackPreventionDialWait = time.Millisecond
+	srv := newServer(dialer, settings)
+	defer func() {
+		srv.limiter.Close()
+		dialer.Close()
+		ps.Close()
+	}()
+
+	w := &c16World{out: out, log: lg, srv: srv, sw: sw, byStr: map[string]*c16Addr{}, byPeer: map[peer.ID]int64{}}
+	npeers := 1 + r.Intn(3)
+	for i := 0; i < npeers; i++ {
+		p := test.RandPeerIDFatal(t)
+		w.peers = append(w.peers, p)
+		w.byPeer[p] = int64(i)
+		k := r.Intn(5)
+		var obs string
+		switch {
+		case r.Chance(1, 12):
+			obs = "/memory/1234"
+			w.obsIP = append(w.obsIP, 0)
+		case c16IPs[k].v6:
+			obs = "/ip6/" + c16IPs[k].s + "/tcp/4001"
+			w.obsIP = append(w.obsIP, c16IPs[k].id)
+		case r.Bool():
+			obs = "/ip4/" + c16IPs[k].s + "/udp/4001/quic-v1"
+			w.obsIP = append(w.obsIP, c16IPs[k].id)
+		default:
+			obs = "/ip4/" + c16IPs[k].s + "/tcp/4001"
+			w.obsIP = append(w.obsIP, c16IPs[k].id)
+		}
+		w.obs = append(w.obs, ma.StringCast(obs))
+	}
+
+	start := time.Now()
+	nowNs := func() int64 { return int64(time.Since(start)) }
+	open := map[int64]*c16Open{}
+	var openOrder []int64
+	nextSid := int64(1)
+	var wg sync.WaitGroup
+	outBuf := map[int64][]byte{}
+	sawDial, sawAsk, sawRefuse, sawReject, sawReset, sawOverlap := false, false, false, false, false, false
+
+	// let the server run, then turn the log into events
+	settle := func(stim []int64) {
+		time.Sleep(2 * time.Millisecond)
+		synctest.Wait()
+		var evs []int64
+		nev := int64(0)
+		for _, e := range lg.drain() {
+			switch e.kind {
+			case 0:
+				outBuf[e.sid] = append(outBuf[e.sid], e.data...)
+				for {
+					b := outBuf[e.sid]
+					l, n := binary.Uvarint(b)
+					if n <= 0 || uint64(len(b)-n) < l {
+						break
+					}
+					var msg pb.Message
+					if err := proto.Unmarshal(b[n:n+int(l)], &msg); err != nil {
+						panic(err)
+					}
+					outBuf[e.sid] = b[n+int(l):]
+					switch {
+					case msg.GetDialResponse() != nil:
+						dr := msg.GetDialResponse()
+						evs = append(evs, 10, e.sid, int64(dr.GetStatus()), int64(dr.GetAddrIdx()))
+						nev++
+						switch dr.GetStatus() {
+						case pb.DialResponse_E_DIAL_REFUSED:
+							sawRefuse = true
+						case pb.DialResponse_E_REQUEST_REJECTED:
+							sawReject = true
+						}
+						w.closeStream(open, &openOrder, e.sid)
+					case msg.GetDialDataRequest() != nil:
+						q := msg.GetDialDataRequest()
+						evs = append(evs, 11, e.sid, int64(q.GetAddrIdx()), int64(q.GetNumBytes()))
+						nev++
+						sawAsk = true
+						if o := open[e.sid]; o != nil {
+							o.asked = true
+							o.plan = c16DataPlan(out, r, int(q.GetNumBytes()))
+							o.after = r.Intn(3)
+						}
+					default:
+						panic("verif: unexpected message from the server")
+					}
+				}
+			case 1:
+				evs = append(evs, 13, e.sid)
+				nev++
+				sawReset = true
+				w.closeStream(open, &openOrder, e.sid)
+			case 2:
+				pi, ok := w.byPeer[e.p]
+				if !ok {
+					pi = -1
+				}
+				aid := int64(-1)
+				if a := w.byStr[e.addr]; a != nil {
+					aid = a.aid
+				}
+				evs = append(evs, 12, pi, aid)
+				nev++
+				sawDial = true
+			}
+		}
+		line = append(line, stim...)
+		line = append(line, nev)
+		line = append(line, evs...)
+		for _, p := range w.peers {
+			sw.Backoff().Clear(p)
+		}
+	}
+
+	for step := 0; step < steps; step++ {
+		choice := r.Intn(10)
+		switch {
+		case len(openOrder) == 0 || (choice < 3 && len(openOrder) < 4):
+			// clock: sometimes a real pause while nothing is open
+			if len(openOrder) == 0 && r.Chance(1, 3) {
+				var d time.Duration
+				switch r.Intn(4) {
+				case 0:
+					d = time.Duration(r.Intn(int(5 * time.Second)))
+				case 1:
+					d = time.Duration(r.Intn(int(50 * time.Second)))
+				case 2:
+					d = time.Minute - time.Duration(r.Intn(int(20*time.Millisecond)))
+				default:
+					d = time.Minute + time.Duration(r.Intn(int(time.Minute)))
+				}
+				time.Sleep(d)
+				synctest.Wait()
+				out.Cover("session.clock_pause_idle")
+				settle([]int64{4, nowNs() + int64(2*time.Millisecond)})
+			}
+			// a new request
+			pi := int64(r.Intn(npeers))
+			for _, sid := range openOrder {
+				if open[sid].peer == pi {
+					sawOverlap = true
+				}
+			}
+			sid := nextSid
+			nextSid++
+			st := newC16Stream(sid, w.peers[pi], w.obs[pi], lg)
+			var entries []*c16Addr
+			good := int64(1)
+			switch k := r.Intn(20); {
+			case k == 0: // not a DialRequest
+				good = 0
+				m := &pb.Message{Msg: &pb.Message_DialResponse{DialResponse: &pb.DialResponse{}}}
+				b, _ := proto.Marshal(m)
+				st.clientWrite(append(c16Uvarint(uint64(len(b))), b...))
+				out.Cover("session.request.wrong_message_type")
+			case k == 1: // garbage
+				good = 0
+				st.clientWrite(append(c16Uvarint(6), 0xff, 0xff, 0xff, 0xff, 0xff, 0xff))
+				out.Cover("session.request.garbage")
+			case k == 2: // nothing at all
+				good = 0
+				st.clientClose()
+				out.Cover("session.request.eof")
+			default:
+				entries = w.mkRequest(r, pi)
+				req := &pb.DialRequest{Nonce: r.Uint64()}
+				for _, a := range entries {
+					req.Addrs = append(req.Addrs, a.bytes)
+				}
+				b, err := proto.Marshal(&pb.Message{Msg: &pb.Message_DialRequest{DialRequest: req}})
+				if err != nil {
+					panic(err)
+				}
+				st.clientWrite(append(c16Uvarint(uint64(len(b))), b...))
+			}
+			open[sid] = &c16Open{st: st, peer: pi}
+			openOrder = append(openOrder, sid)
+			t0 := nowNs()
+			wg.Add(1)
+			go func() {
+				defer wg.Done()
+				srv.serveDialRequest(st)
+			}()
+			stim := []int64{1, sid, pi, w.obsIP[pi], t0, good, 0, int64(len(entries))}
+			for _, a := range entries {
+				stim = append(stim, a.aid, a.cls, a.ip)
+			}
+			nPos := 6
+			before := len(line)
+			settle(stim)
+			// n = NumBytes of the DialDataRequest, if the server sent one in this step
+			evStart := before + len(stim) + 1
+			for i := evStart; i < len(line); {
+				switch line[i] {
+				case 10:
+					i += 4
+				case 11:
+					if line[i+1] == sid {
+						line[before+nPos] = line[i+3]
+					}
+					i += 4
+				case 12:
+					i += 3
+				case 13:
+					i += 2
+				default:
+					panic("verif: bad event encoding")
+				}
+			}
+			out.Cover("session.requests")
+		case choice < 9:
+			// next client action on an open stream
+			sid := openOrder[r.Intn(len(openOrder))]
+			o := open[sid]
+			if len(o.plan) > 0 {
+				m := o.plan[0]
+				o.plan = o.plan[1:]
+				o.st.clientWrite(m.wire)
+				if !m.complete {
+					o.st.clientClose()
+				}
+				settle([]int64{2, sid, m.mk, m.L, m.D})
+				out.Cover("session.data_messages")
+			} else if o.after == 1 || !o.asked {
+				o.st.clientClose()
+				settle([]int64{3, sid})
+				out.Cover("session.client_close")
+			} else {
+				// the client stalls: run the clock past the stream deadline
+				time.Sleep(streamTimeout + time.Duration(r.Intn(int(50*time.Second))))
+				synctest.Wait()
+				settle([]int64{4, nowNs() + int64(2*time.Millisecond)})
+				out.Cover("session.client_stall_timeout")
+			}
+		default:
+			time.Sleep(streamTimeout + time.Duration(r.Intn(int(50*time.Second))))
+			synctest.Wait()
+			settle([]int64{4, nowNs() + int64(2*time.Millisecond)})
+			out.Cover("session.timeout_all_open")
+		}
+	}
+	// end: everything still open times out
+	time.Sleep(streamTimeout + time.Second)
+	synctest.Wait()
+	settle([]int64{4, nowNs() + int64(2*time.Millisecond)})
+	wg.Wait()
+
+	out.Cover("session.cases")
+	for name, b := range map[string]bool{"session.cases_with_dial": sawDial, "session.cases_with_data_request": sawAsk,
+		"session.cases_with_dial_refused": sawRefuse, "session.cases_with_request_rejected": sawReject,
+		"session.cases_with_reset": sawReset, "session.cases_with_overlapping_requests_of_one_peer": sawOverlap} {
+		if b {
+			out.Cover(name)
+		}
+	}
+	out.Case(line)
+}
+
+func (w *c16World) closeStream(open map[int64]*c16Open, order *[]int64, sid int64) {
+	if _, ok := open[sid]; !ok {
+		return
+	}
+	delete(open, sid)
+	for i, x := range *order {
+		if x == sid {
+			*order = append((*order)[:i:i], (*order)[i+1:]...)
+			break
+		}
+	}
+}
+
+func (w *c16World) mkRequest(r *verifh.Rand, pi int64) []*c16Addr {
+	p := w.peers[pi]
+	n := r.Intn(6)
+	long := r.Chance(1, 12)
+	if long {
+		n = maxPeerAddresses - 2 + r.Intn(6)
+		w.out.Cover("session.request.near_max_peer_addresses")
+	}
+	var l []*c16Addr
+	for i := 0; i < n; i++ {
+		var a *c16Addr
+		if len(w.addrs) > 0 && r.Chance(1, 5) {
+			a = w.addrs[r.Intn(len(w.addrs))] // an address seen in an earlier request
+		} else {
+			a = w.mkAddr(r, p)
+		}
+		if long && i < n-1-r.Intn(3) && a.cls == 7 {
+			// keep the head of a long list unusable so that the cap decides
+			i--
+			continue
+		}
+		l = append(l, a)
+	}
+	usable := false
+	for i, a := range l {
+		if a.cls == 7 {
+			usable = true
+			if i >= maxPeerAddresses {
+				w.out.Cover("session.request.first_usable_beyond_cap")
+			} else if i == maxPeerAddresses-1 {
+				w.out.Cover("session.request.first_usable_at_cap_minus_1")
+			}
+			if a.ip == w.obsIP[pi] {
+				w.out.Cover("session.request.first_usable_same_ip")
+			} else {
+				w.out.Cover("session.request.first_usable_foreign_ip")
+			}
+			break
+		}
+	}
+	if !usable {
+		w.out.Cover("session.request.no_usable_address")
+	}
+	return l
+}
+
+// what the client does after a DialDataRequest for n bytes
+func c16DataPlan(out *verifh.Out, r *verifh.Rand, n int) []c16Msg {
+	var msgs []c16Msg
+	sent := 0
+	big := !r.Chance(1, 8)
+	for sent < n {
+		d := 4000 + r.Intn(4186)
+		if !big {
+			d = 100 + r.Intn(400)
+		}
+		if n-sent < d && r.Bool() {
+			d = n - sent // exactly enough
+		}
+		if r.Chance(1, 10) {
+			msgs = append(msgs, c16Raw(d, 9))
+		} else {
+			msgs = append(msgs, c16WellFormed(d))
+		}
+		sent += d
+	}
+	switch r.Intn(10) {
+	case 0: // stops early
+		msgs = msgs[:r.Intn(len(msgs))]
+		out.Cover("session.plan.short")
+	case 1: // a tiny message on the way
+		k := r.Intn(len(msgs))
+		msgs = append(msgs[:k:k], c16WellFormed(r.Intn(100)))
+		out.Cover("session.plan.tiny_message")
+	case 2: // oversized
+		k := r.Intn(len(msgs))
+		msgs = append(msgs[:k:k], c16Raw(maxMsgSize+1+r.Intn(100), 1))
+		out.Cover("session.plan.oversized")
+	case 3: // broken
+		k := r.Intn(len(msgs))
+		msgs = append(msgs[:k:k], c16Broken(r))
+		out.Cover("session.plan.broken")
+	case 4: // one byte short in total, then stops
+		last := msgs[len(msgs)-1]
+		over := sent - n
+		if int(last.D)-over-1 >= 100 {
+			msgs[len(msgs)-1] = c16WellFormed(int(last.D) - over - 1)
+			out.Cover("session.plan.one_byte_short")
+		}
+	default:
+		out.Cover("session.plan.correct")
+	}
+	return msgs
+}
+
+func c16Sessions(t *testing.T, out *verifh.Out, r *verifh.Rand) {
+	n := c16Scale(250, 6000)
+	for i := 0; i < n; i++ {
+		rr := r.Fork()
+		steps := 10 + rr.Intn(50)
+		synctest.Test(t, func(t *testing.T) { c16Session(t, out, rr, steps) })
+	}
+}
